@@ -186,12 +186,19 @@ func utValues(rng *rand.Rand, k int) []float64 {
 func utSamples(rng *rand.Rand, t, r []int) (x1, x2 []float64) {
 	vals := utValues(rng, len(t))
 	x1, x2 = []float64{}, []float64{}
+	// a tie group at zero is spelled with both signs: +0 and -0 are equal, hence tied
+	zero := func(v float64) float64 {
+		if v == 0 && rng.Intn(2) == 0 {
+			return math.Copysign(0, -1)
+		}
+		return v
+	}
 	for k := range t {
 		for i := 0; i < r[k]; i++ {
-			x1 = append(x1, vals[k])
+			x1 = append(x1, zero(vals[k]))
 		}
 		for i := 0; i < t[k]-r[k]; i++ {
-			x2 = append(x2, vals[k])
+			x2 = append(x2, zero(vals[k]))
 		}
 	}
 	rng.Shuffle(len(x1), func(i, j int) { x1[i], x1[j] = x1[j], x1[i] })
